@@ -411,17 +411,18 @@ func ruleCode39Assembly(c *Ctx) {
 	}
 	if fn := c.theFunc(R, "code93.EncodeWithColor"); fn != nil && addBit != nil {
 		n := NewNormer(c.P)
-		ab := callsTo(fn, c.P.Func("utils.(*BitList).AddBits"))
+		ab := c.P.deepCallsTo(fn, c.P.Func("utils.(*BitList).AddBits"))
 		okW := len(ab) == 1
 		if okW {
-			k, ok := n.Norm(ab[0].Common().Args[2]).IsConst()
+			k, ok := n.Norm(ab[0].Ins.(*ssa.Call).Common().Args[2]).IsConst()
 			okW = ok && k == 9
 		}
 		c.Check(R, "code93.EncodeWithColor/modules", fn.Pos(), okW, "AddBits(pattern, 9) per character", fmt.Sprint(len(ab)))
 		term := 0
-		for _, call := range callsTo(fn, addBit) {
-			if bits, ok := constBoolList(call.Common().Args[1]); ok && bits == "1" && len(ab) == 1 {
-				if h := enclosingLoopHeader(ab[0].Block()); h != nil && h.Succs[1].Dominates(call.Block()) {
+		for _, s := range c.P.deepCallsTo(fn, addBit) {
+			call := s.Ins.(*ssa.Call)
+			if bits, ok := constBoolList(call.Common().Args[1]); ok && bits == "1" && len(ab) == 1 && s.Fn == ab[0].Fn {
+				if h := enclosingLoopHeader(ab[0].Ins.Block()); h != nil && h.Succs[1].Dominates(call.Block()) {
 					term++
 				}
 			}
